@@ -75,7 +75,7 @@ def describe(tier):
             "fresh-scanner result. (2b) every input of the mix/shell/net/concat/kw scan-level families is scanned at depth 10, 1, 10 on one long-lived scanner: first and third tree must be equal, the first tree must not change while the later scans run, and the depth-1 tree must equal that of a scanner only ever used at depth 1. (3) Enumeration orders: ALL permutations of the iteration order of every keyword set and of every directory listing "
             "of the fixture keyword directory (seams: multidecoder.registry.set, os.walk), and for the shipped keywords ALL relative orders of the files of "
             "every group of files that share a word ignoring case; the trees of witness inputs must all be equal. (3b) every set of str/bytes built by ANY multidecoder.* module while a witness is scanned "
-            f"(seam: `set`/`frozenset` in each module namespace) is iterated in each of the orders {SET_ORDERS}; witnesses include xor-ed byte arrays with tied key candidates (multi-byte key guesser). (3c) six pairs of inputs that agree on their first 4 KiB / 64 KiB and differ afterwards (two PE images with the same header page, long texts, base64, hex, UTF-16) in 5 histories x shared / fresh scanner, each history in a fresh process, every tree compared with the single-input fresh-process tree. (4) Processes: the same witness inputs "
+            f"(seam: `set`/`frozenset` in each module namespace) is iterated in each of the orders {SET_ORDERS}; witnesses include xor-ed byte arrays with tied key candidates (multi-byte key guesser). (3c) six pairs of inputs that agree on their first 4 KiB / 64 KiB and differ afterwards (two PE images with the same header page, long texts, base64, hex, UTF-16) in 5 histories x shared / fresh scanner, each history in a fresh process, every tree compared with the single-input fresh-process tree. (3d) one bytearray refilled in place and scanned again (all histories of 3 out of 7 blocks x depth 10 / 1 x shipped / fixture registry) against reference trees computed beforehand from bytes objects; the list returned by each of the 157 default registry entries is appended to and the call repeated. (4) Processes: the same witness inputs "
             f"and the CLI in fresh processes under PYTHONHASHSEED {list(SEEDS[tier])[0]}..{list(SEEDS[tier])[-1]} (and interpreter optimisation levels none / -O / -OO) must give byte-identical JSON, equal to the in-process result. "
             "states = distinct scheduler switch points (thread-0 location, thread-1 location) + history states + registry orders, transitions = scheduler steps + "
             "history transitions, traces = executions compared. Non-trivial = schedule in which a preemption really interleaved two scans (both threads alive)."
@@ -127,6 +127,7 @@ def plan(tier, seed):
     units += [("setorder", i) for i in range(len(WITNESS))]
     units += [("prefix", i) for i in range(len(prefix_pairs()))]
     units += [("returned-lists", i, 8) for i in range(8)]
+    units += [("buffer-reuse", which) for which in ("shipped", "fixture")]
     return units
 
 
@@ -604,6 +605,39 @@ def run_prefix(rec, i):
     rec.sample({"prefix_pair": name, "lengths": [len(x), len(y)], "histories": 10})
 
 
+def run_buffer_reuse(rec, which):
+    """The caller scans block after block out of ONE bytearray that it refills in place (the readinto() pattern), with one scanner: every
+    tree must be the tree of the bytes that are in the buffer at that moment.  Reference trees are computed first, from bytes objects."""
+    blocks = [b"call VirtualAlloc then strlen and StrLen", b"only McAfee and Norton here, STRLEN too", b"nothing at all in this block ........",
+              b"x " + _B64_2 + b" y", b"cmd /c echo http://a.com/b.exe 8.8.4.4", b"$k -bxor 35 FromBase64String('R1ZASA==')", b""]
+    reg = (lambda: None) if which == "shipped" else (lambda: mdreg.build_registry(families.FIXTURE_KW))
+    expected = {(bi, depth): trees.tup(Multidecoder(reg()).scan(blocks[bi], depth)) for bi in range(len(blocks)) for depth in (10, 1)}
+    n = 0
+    for depth in (10, 1):
+        md = Multidecoder(reg())
+        for hist in itertools.product(range(len(blocks)), repeat=3):
+            buf = bytearray()
+            for pos, bi in enumerate(hist):
+                buf[:] = blocks[bi]
+                rec.count("evaluations")
+                rec.mark("states", ("buffer-reuse", which, depth, hist, pos), True)
+                w = {"kind": "buffer-reuse", "registry": which, "history": list(hist), "depth": depth}
+                ok, tree = rec.guard("C09.total", w, len(buf), md.scan, buf, depth)
+                n += 1
+                if not ok:
+                    break
+                rec.count("traces")
+                rec.count("transitions")
+                if pos:
+                    rec.mark("nontrivial", 0, True)
+                if trees.tup(tree) != expected[(bi, depth)]:
+                    rec.violation("C09.history.same-tree", "reused-buffer|tree-of-earlier-contents", w,
+                                  f"{which} registry, depth {depth}: block #{bi} scanned out of a bytearray that held blocks {list(hist[:pos])} before gives "
+                                  f"{core.short(trees.tup(tree)[5], 160)}; the same bytes give {core.short(expected[(bi, depth)][5], 160)}", pos)
+                    break
+    rec.sample({"family": "reused-bytearray", "registry": which, "blocks": len(blocks), "scans": n})
+
+
 def run_returned_lists(rec, part, nparts):
     """Every entry of the default registry x witness inputs: the returned list is the caller's (appending to it must not change later results)."""
     reg = Multidecoder().decoders
@@ -746,6 +780,8 @@ def run_unit(unit, rec):
         run_prefix(rec, unit[1])
     elif kind == "returned-lists":
         run_returned_lists(rec, unit[1], unit[2])
+    elif kind == "buffer-reuse":
+        run_buffer_reuse(rec, unit[1])
 
 
 def replay(w, rec):
@@ -765,6 +801,8 @@ def replay(w, rec):
         run_setorder(rec, w["witness"])
     elif k == "prefix":
         run_prefix(rec, w["pair"])
+    elif k == "buffer-reuse":
+        run_buffer_reuse(rec, w["registry"])
     elif k == "returned-list":
         run_returned_lists(rec, w["entry"] % 8, 8)
     elif k == "twice":
